@@ -21,7 +21,7 @@ class C01(TreeCheck):
     rule_text = (
         "programs from g_mix (1-3 threads; plain/reusable executors; all task kinds incl. pool-breaking ones; cancel/resize/"
         "shutdown(wait=*)/del; 6 ways of ending) run once in profile mode, then re-run with one injected delay (D) at a sampled "
-        "statement of the driver's user/manager/feeder threads, one injected death (K) at a sampled statement of a worker, or "
+        "statement of the driver's user/manager/feeder threads, two delays in two different driver threads (DD), one injected death (K) at a sampled statement of a worker, or "
         "jitter (Z). A case is non-trivial when the planned fault fired (or, for P/Z cases, when futures were observed); "
         "distinct = distinct (program shape, mode, injection function, fault kind, outcome class)."
     )
@@ -61,6 +61,7 @@ class C01(TreeCheck):
                 for h in explore.hits_for(pt, rng, which=(rng.choice(["first", "last"]),)) or [1]:
                     out.append(({"rules": [explore.rule(pt, act, hit=h)]}, {"mode": "K", "fn": pt["qual"], "act": act[0]}))
         out += explore.derive_DS(F, base, rng, 1 if tier == "quick" else 3)
+        out += explore.derive_DD(F, base, rng, 3 if tier == "quick" else 8, files=DRIVER_FILES)
         for z in range(nz):
             out.append(({"seed": rng.randint(0, 10**6), "rules": [{"role": "*", "action": ["jitter", 0.03, 0.02]}]}, {"mode": "Z"}))
         return out
@@ -71,7 +72,7 @@ class C01(TreeCheck):
     def nontrivial(self, case, F):
         m = case["meta"]
         fired = F.fired(("sleep", "kill", "exit", "cexit"))
-        if m.get("mode") in ("D", "K") and not fired:
+        if m.get("mode") in ("D", "K", "DD") and not fired:
             return None
         if not F.futs:
             return None
